@@ -58,7 +58,7 @@ private:
     QXmppDataForm m_featureForm;
     QXmppTransferFileInfo m_fileInfo;
     QString m_mimeType;
-    Profile m_profile;
+    Profile m_profile = None;
     QString m_siId;
 };
 /// \endcond
